@@ -66,6 +66,7 @@ CbReg(i) == <<"Register", i, NONE>>
 CbCheck(i, o) == <<"DepCheck", i, o>>
 CbNotify(i, o) == <<"Notify", i, o>>
 CbWaiter == <<"WaiterStep", NONE, NONE>>
+CbStop == <<"StopStep", NONE, NONE>>
 
 (* ------------------------------------------------------------------ *)
 (* Initial state                                                        *)
@@ -93,6 +94,8 @@ InitMem ==
     unfinished |-> 0,
     failed |-> {},
     waiter |-> "none",
+    stopreq |-> FALSE,      \* experiment.stop() was called (SIGINT handler)
+    exitmode |-> FALSE,     \* experiment.exitMode
     result |-> [i \in Insts |-> NONE],
     mwait |-> <<NONE, NONE>> ]
 
@@ -392,13 +395,14 @@ WaitCall ==
 WaiterStep ==
   /\ Running /\ BagIn(s.ready, CbWaiter) /\ s.waiter \in {"start", "woken"}
   /\ LET s0 == [s EXCEPT !.ready = BagDel(@, CbWaiter)]
-     IN s' = IF s.unfinished = 0
+     IN s' = IF s.unfinished = 0 \/ s.exitmode
              THEN [s0 EXCEPT !.waiter = IF s.failed # {} THEN "failed" ELSE "ok"]
              ELSE [s0 EXCEPT !.waiter = "waiting"]
   /\ UNCHANGED wl
 
 WaitReturn ==
   /\ Running /\ s.mwait = <<"xpwait", NONE>> /\ s.waiter \in {"ok", "failed"}
+  /\ s.unfinished = 0            \* (otherwise: WaitReturnStopped below)
   /\ s' = [s EXCEPT !.phase = "closed", !.mwait = <<NONE, NONE>>, !.mpc = @ + 1]
   /\ UNCHANGED wl
 
@@ -437,6 +441,31 @@ DieAfterSpawn(i) ==
   /\ UNCHANGED wl
 
 KillOp == Running /\ MainFree /\ Op.op = "kill" /\ (Die \/ \E i \in Insts : DieAfterSpawn(i))
+
+(* ------------------------------------------------------------------ *)
+(* experiment.stop(): the SIGINT handler of the main thread (Ctrl-C while the program waits)                *)
+(* ------------------------------------------------------------------ *)
+(* the signal arrives while the main program is at a `wait` that the workload marks as interrupted:
+   stop() posts doStop() to the loop *)
+Sigint ==
+  /\ Running /\ Op.op = "wait" /\ Op.n = "sigint" /\ ~s.stopreq
+  /\ s' = [s EXCEPT !.stopreq = TRUE, !.ready = BagAdd(@, CbStop)]
+  /\ UNCHANGED wl
+
+(* doStop(): exitMode := True, exitCondition.notify_all() *)
+StopStep ==
+  /\ Running /\ BagIn(s.ready, CbStop)
+  /\ LET s0 == [s EXCEPT !.ready = BagDel(@, CbStop), !.exitmode = TRUE]
+     IN s' = IF s.waiter = "waiting" THEN [s0 EXCEPT !.waiter = "woken", !.ready = BagAdd(@, CbWaiter)] ELSE s0
+  /\ UNCHANGED wl
+
+(* wait() came back although jobs are unfinished: __exit__ stops the loop and the program ends -- for the
+   workspace this is the death of the scheduler process (jobs keep running, nothing is unwound) *)
+WaitReturnStopped ==
+  /\ Running /\ s.mwait = <<"xpwait", NONE>> /\ s.waiter \in {"ok", "failed"}
+  /\ s.unfinished > 0
+  /\ s' = Dead(s)
+  /\ UNCHANGED wl
 
 (* a new experiment on the same workspace *)
 Restart ==
@@ -492,6 +521,7 @@ Next ==
   \/ AThreadDone
   \/ AProcLock \/ AProcExit
   \/ WaitCall \/ WaiterStep \/ WaitReturn
+  \/ Sigint \/ StopStep \/ WaitReturnStopped
   \/ KillOp \/ Restart
   \/ Terminated
 
@@ -535,12 +565,16 @@ TruthfulFinalA ==
         (s'.jstate[i] = "DONE" <=> s'.done[NameOf(i)])
 TruthfulFinal == [][TruthfulFinalA]_vars
 WaitOnlyWhenAllFinal ==
-  s.waiter \in {"ok", "failed"} => \A i \in NewInsts : s.jstate[i] \in Final /\ s.pc[i] = "finished"
+  (s.waiter \in {"ok", "failed"} /\ ~s.exitmode) => \A i \in NewInsts : s.jstate[i] \in Final /\ s.pc[i] = "finished"
 CounterNonNegative == s.unfinished >= 0
+(* wait() returns early only on request *)
+StopOnlyOnRequest == s.exitmode => s.stopreq
+EarlyReturnOnlyAfterStopA == (s.mwait = <<"xpwait", NONE>> /\ s'.mwait # s.mwait /\ s.unfinished > 0) => s.exitmode
+EarlyReturnOnlyAfterStop == [][EarlyReturnOnlyAfterStopA]_vars
 
 (* C07 *)
 ExitReportsFailureIffFailed ==
-  s.waiter \in {"ok", "failed"} =>
+  (s.waiter \in {"ok", "failed"} /\ ~s.exitmode) =>
      (s.waiter = "failed" <=> \E i \in NewInsts : s.jstate[i] = "ERROR")
 FailedDependentsCancelled ==
   (s.phase = "closed") =>
